@@ -263,6 +263,7 @@ func (d *structDesc) fromDefsFields(ff []defs.Field) {
 }
 
 type tField struct {
+	Name   string // Go field name, for error messages
 	ID     uint16
 	Offset uintptr
 	Type   *tType
@@ -306,6 +307,7 @@ func (f *tField) EncodedSize() int {
 }
 
 func (f *tField) fromDefsField(x defs.Field) {
+	f.Name = x.Name
 	f.ID = x.ID
 	f.Offset = uintptr(x.F)
 	f.Type = newTType(x.Type)
